@@ -206,7 +206,7 @@ def r16_6(ctx, rr):
     geometry_rule(ctx, rr, with_c=False)
 
 
-def geometry_rule(ctx, rr, with_c):
+def geometry_rule(ctx, rr, with_c, sink=None):
     for cfg in sorted(ctx.facts.keys()):
         F = ctx.F(cfg)
         DI = DeepInliner(F, keep_narrowing=False)
@@ -324,6 +324,8 @@ def geometry_rule(ctx, rr, with_c):
                     worst_all = (v, n)
                 if n >= 100000 and v > worst_big[0]:
                     worst_big = (v, n)
+            if sink is not None:
+                sink[nm] = {"worst_all": worst_all, "worst_big": worst_big, "sharded": sharded, "span": b.span}
             key = "%s:c<=1.23" % nm
             if unevaluated > len(pts) // 2:
                 rr.violate("%s:c-evaluable" % nm, "%s: could not evaluate the expansion factor c (%s) on the sample of key counts" % (ref, tshow(c_t)[:200]), b.span)
@@ -599,3 +601,36 @@ def r11_7(ctx, rr):
                 rr.ob(True, key="%s:segment-exponent-from-formula" % short_fn(b.key), nontrivial=False)
     if n_found == 0:
         raise AnchorMissing("no capped segment-size exponent found in the fuse set_up_graphs")
+
+
+@rule("R11.9", props=["C11"], floor=2, title="sharded functions: expansion factor times the shard-balance tolerance of try_seed stays within the documented bound (all shards are sized for the largest one)")
+def r11_9(ctx, rr):
+    """Every shard gets the geometry of the largest shard, and try_seed accepts a seed when the largest shard is at
+    most K times the average: the space is c * K * n * b. The tolerance K is as much part of the bound as c."""
+    from framework import RuleResult
+    F = ctx.F()
+    b = F.one(r"^func::vbuilder::VBuilder::<W, D, S, E>::try_seed$")
+    Ks = []
+    for n in walk(b.body):
+        if n.get("k") == "If" and n["c"].get("k") == "Binary" and n["c"]["op"] in (">", ">=") and any("MaxShardTooBig" in show(F, x) for x in walk(n["th"])):
+            fl = [x for x in walk(n["c"]["r"]) if x.get("k") == "Lit" and re.match(r"^\d+\.\d*", str(x.get("v", "")))]
+            if len(fl) == 1:
+                Ks.append((float(re.match(r"^[\d.]+", str(fl[0]["v"])).group(0)), n))
+    if len(Ks) != 1:
+        raise AnchorMissing("try_seed: expected one balance test `max_shard > K * num_keys / num_shards` leading to MaxShardTooBig, found %d" % len(Ks))
+    K, node = Ks[0]
+    sink = {}
+    geometry_rule(ctx, RuleResult("R11.9-geometry"), with_c=True, sink=sink)
+    sharded = {nm: v for nm, v in sink.items() if v["sharded"]}
+    if not sharded:
+        raise AnchorMissing("no sharded ShardEdge logic evaluated")
+    for nm, v in sorted(sharded.items()):
+        rr.instances += 1
+        prod_all = v["worst_all"][0] * K
+        prod_big = v["worst_big"][0] * K
+        for lab, prod, lim, at in (("1.23", prod_all, 1.23 * 1.01, v["worst_all"][1]), ("1.135-from-100000-keys", prod_big, 1.135, v["worst_big"][1])):
+            key = "%s:c*balance<=%s:%.5f" % (nm, lab, prod)
+            ok = prod <= lim + 1e-12
+            rr.ob(ok, key=key, sample={"impl": nm, "c": prod / K, "balance_tolerance": K, "product": prod, "at_n": at})
+            if not ok:
+                rr.violate(key, "%s: shards are sized for the largest one and try_seed accepts a largest shard of up to %.4g times the average: the space reaches %.4f * %.4g = %.5f n b at n = %s, above the documented %s" % (nm, K, prod / K, K, prod, at, lab.split("-")[0]), F.loc(node))
